@@ -58,7 +58,7 @@ def main():
     hook_commits = [l.split(' ')[0] for l in hooks if l.split(' ', 1)[1].startswith('verif hook:')]
     m = {
         "version": 1,
-        "setup_cmd": "python3 vf/build.py plain asan preempt serial",
+        "setup_cmd": "python3 vf/build.py plain asan preempt serial && python3 vf/check.py determinism 6",
         "hooks": {"guard": "KALIGN_VERIF",
                   "enable": "vf/build.py compiles /repo/lib/src/*.c, src/run_kalign.c, src/parameters.c with -DKALIGN_VERIF for every variant; the callback pointer kalign_verif_cb is defined by the harness (sim/hooks.c)",
                   "baseline_off_cmd": "cmake -G Ninja -S /repo -B /repo/_build >/dev/null && cmake --build /repo/_build >/dev/null && ctest --test-dir /repo/_build -j8 --timeout 900",
